@@ -1,4 +1,5 @@
 import ExprModel.Proofs.OptInRange
+import ExprModel.Proofs.OptReject
 import ExprModel.Opt.ObsEq
 import ExprModel.Gen.Pipeline
 /-
@@ -508,49 +509,52 @@ def optimize_transparent_goal (fl : Flags) : Prop :=
   ∀ (c : SCfg) (fns : ConstFns) (n n' : Node) (cast : Option Nat), reOK n = true → FnsOfEnv c fns →
     optimize fl fns c.world n = .ok n' → ObsRes (Spec.run c cast n').1 (Spec.run c cast n).1
 
-mutual
-def subnodes : Node → List Node
-  | .unary m op x => .unary m op x :: subnodes x
-  | .binary m op l r => .binary m op l r :: (subnodes l ++ subnodes r)
-  | .matches m h l r => .matches m h l r :: (subnodes l ++ subnodes r)
-  | .prop m x a b => .prop m x a b :: subnodes x
-  | .index m x i => .index m x i :: (subnodes x ++ subnodes i)
-  | .slice m x f t => .slice m x f t :: (subnodes x ++ subnodesOpt f ++ subnodesOpt t)
-  | .method m x a args b => .method m x a args b :: (subnodes x ++ subnodesList args)
-  | .func m a args b => .func m a args b :: subnodesList args
-  | .builtin m a args => .builtin m a args :: subnodesList args
-  | .closure m x => .closure m x :: subnodes x
-  | .cond m a b d => .cond m a b d :: (subnodes a ++ subnodes b ++ subnodes d)
-  | .array m xs => .array m xs :: subnodesList xs
-  | .map m xs => .map m xs :: subnodesList xs
-  | .pair m k v => .pair m k v :: (subnodes k ++ subnodes v)
-  | n => [n]
-def subnodesList : List Node → List Node
-  | [] => []
-  | n :: ns => subnodes n ++ subnodesList ns
-def subnodesOpt : Option Node → List Node
-  | none => []
-  | some n => subnodes n
-end
+/-- the tree contains an integer `/` or `%` whose operands are constant integer expressions (literals, unary
+    signs, `+ - * / %`, evaluated in Go's `int`) and whose divisor is zero — `OptProofs.dz`, defined on the
+    tree as written, before any folding -/
+def HasConstDivZero (n : Node) : Prop := dz n = true
 
-/-- a constant integer expression and its value in Go's `int` arithmetic -/
-inductive ConstInt : Node → Int → Prop
-  | lit (m v) : ConstInt (.int m v) v
-  | neg {x v} (m) : ConstInt x v → ConstInt (.unary m "-" x) (wrap .int (-v))
-  | pos {x v} (m) : ConstInt x v → ConstInt (.unary m "+" x) v
-  | add {l r a b} (m) : ConstInt l a → ConstInt r b → ConstInt (.binary m "+" l r) (wrap .int (a + b))
-  | sub {l r a b} (m) : ConstInt l a → ConstInt r b → ConstInt (.binary m "-" l r) (wrap .int (a - b))
-  | mul {l r a b} (m) : ConstInt l a → ConstInt r b → ConstInt (.binary m "*" l r) (wrap .int (a * b))
-  | div {l r a b} (m) : ConstInt l a → ConstInt r b → b ≠ 0 → ConstInt (.binary m "/" l r) (wrap .int (Int.tdiv a b))
-  | mod {l r a b} (m) : ConstInt l a → ConstInt r b → b ≠ 0 → ConstInt (.binary m "%" l r) (wrap .int (Int.tmod a b))
+example : HasConstDivZero (.binary {} "+" (.ident {} "x" false) (.binary {} "%" (.int {} 7) (.binary {} "-" (.int {} 1) (.int {} 1)))) := by
+  show dz _ = true; rfl
 
-def HasConstDivZero (n : Node) : Prop :=
-  ∃ m op l r a, .binary m op l r ∈ subnodes n ∧ (op = "/" ∨ op = "%") ∧ ConstInt l a ∧ ConstInt r 0
+/-- **The only trees the optimizer rejects**: if `optimizer.Optimize` fails, the tree contains a constant integer
+    division or modulo by zero, or the compile-time call of a ConstExpr function on literal arguments failed
+    (for every setting of the switches, every world, with or without ConstExpr functions). -/
+theorem optimize_rejects_only_divzero (fl : Flags) (fns : ConstFns) (w : World) (n : Node) (l : Loc)
+    (h : optimize fl fns w n = .error l) :
+    HasConstDivZero n ∨
+    ∃ name args id vs e, fns.lookup name = some id ∧ constArgs fl args = some vs ∧ w.call id vs = .error e := by
+  unfold optimize optimizeWith at h
+  simp only [bind, Except.bind, pure, Except.pure] at h
+  have hin := walk_back fl.walkSliceNode (guarded Guard.all .inArray (inArrayRule fl))
+    (guarded_backward _ _ _ (inArray_backward fl))
+    (guarded_err _ _ _ _ (fun N st hh => absurd (by rw [inArray_no_err]) hh)) n {}
+  have hfold := repeatPass_back fl.walkSliceNode (guarded Guard.all .fold (foldRule fl w))
+    (guarded_backward _ _ _ (fold_backward fl w)) (guarded_err _ _ _ _ (fold_err_dzHere fl w)) foldWalks
+    (walk fl.walkSliceNode (guarded Guard.all .inArray (inArrayRule fl)) n {}).1
+  split at h
+  · rename_i l' h2
+    exact .inl (hin.2.1 (hfold.1 _ h2))
+  · rename_i n2 h2
+    split at h
+    · cases h
+    · split at h
+      · rename_i l' h3
+        right
+        obtain ⟨N, st, he⟩ := repeatPass_errAt _ _ _ _ _ h3
+        have he' : (constExprRule fl fns w N st).2.err ≠ st.err := by
+          simp only [guarded, Guard.all, if_true] at he; exact he
+        obtain ⟨m, name, args, fast, id, vs, e, _, h1, h2', h3'⟩ := constExpr_rejects_only_failed_call fl fns w N st he'
+        exact ⟨name, args, id, vs, e, h1, h2', h3'⟩
+      · cases h
 
-/-- "the only expression the optimizer may reject … is one containing a constant integer division or
-    modulo by zero" (without ConstExpr functions; with them a failing call may also be rejected) -/
-def optimize_rejects_only_divzero_goal (fl : Flags) : Prop :=
-  ∀ (w : World) (n : Node) (l : Loc), optimize fl [] w n = .error l → HasConstDivZero n
+/-- without ConstExpr functions: "the only expression the optimizer may reject … is one containing a constant
+    integer division or modulo by zero" -/
+theorem optimize_rejects_only_divzero_plain (fl : Flags) (w : World) (n : Node) (l : Loc)
+    (h : optimize fl [] w n = .error l) : HasConstDivZero n := by
+  rcases optimize_rejects_only_divzero fl [] w n l h with h | ⟨_, _, _, _, _, h1, _⟩
+  · exact h
+  · cases h1
 
 /-! ## Witnesses of the reproduced deviations (model level; harness/c02.go exhibits each on the real code) -/
 
